@@ -139,6 +139,7 @@ def dispatch (j : Json) : Except String Res := do
   | "render" => renderOp j
   | "statusline" | "ctline" | "locline" | "headers" => jtpLineOp op j
   | "fetchseq" => fetchSeqOp j
+  | "webfinger" => webfingerOp j
   | "paging" => pagingOp j
   | "splice" => spliceOp j
   | "history" => historyOp j
